@@ -15,7 +15,7 @@ from ..model import UNKNOWN, AnchorError, Class, Func, UnknownIdiom, dotted, sho
 from .appflow import ASGI_CALL, WSGI_CALL, AppFlow
 from .c04_helpers import (Index, aliases, assume_none, attr_of, combine, def_value, effective_method, eval3, is_name,
                           none_test, param_at, pruned, refuted)
-from .common import dict_literal, enclosing_map, ancestors, is_self_attr, mentions, nodes_within, single, strip_await, walk_self
+from .common import dict_literal, enclosing_map, ancestors, implied, is_self_attr, mentions, nodes_within, single, strip_await, walk_self
 
 WSGI_APP = 'falcon.app.App'
 ASGI_APP = 'falcon.asgi.app.App'
@@ -1959,6 +1959,418 @@ def r7_sse_and_status(run):
     _status_line(run)
 
 
+# ---------------------------------------------------------------------------
+# R9: the 'body' of a body event is a byte string -- never None
+# ---------------------------------------------------------------------------
+
+def _stable_facts(ix: Index, nid: int, inner, name: str):
+    """The dominating branch facts about local `name` at node nid that still speak about the value the local has THERE
+    (the same definitions reach the test and the use: a test of an earlier value of a reassigned local says nothing)."""
+    here = ix.defs_reaching(nid, name)
+    return [(t, tr) for (t, tr, tn) in ix.facts3(nid, inner) if tn == nid or ix.defs_reaching(tn, name) == here]
+
+
+def _noneness(a: AsgiCall, e, nid: int, is_stream, depth=0):
+    """Abstract value of `e` (evaluated at node nid) over the None partition:
+    ('no', _) never None | ('app', def) a value handed over by the application's stream object, nothing excludes None |
+    ('none', e) the constant None | ('maybe', def) some other value nothing proves to be not None | ('call', _) produced by a call, not judged | ('?', why)."""
+    e = strip_await(e)
+    if isinstance(e, ast.Constant):
+        return ('no', None) if e.value is not None else ('none', e)
+    if isinstance(e, (ast.JoinedStr, ast.List, ast.Tuple, ast.Dict, ast.BinOp)):
+        return ('no', None)
+    if isinstance(e, ast.BoolOp):
+        if isinstance(e.op, ast.Or):
+            # `x or y`: an operand that is returned early is truthy, hence not None; only the last one is returned as it is
+            return _noneness(a, e.values[-1], nid, is_stream, depth)
+        rs = [_noneness(a, v, nid, is_stream, depth) for v in e.values]
+        bad = [r for r in rs if r[0] != 'no']
+        return bad[0] if bad else ('no', None)
+    if isinstance(e, ast.IfExp):
+        rs = [_noneness(a, e.body, nid, is_stream, depth), _noneness(a, e.orelse, nid, is_stream, depth)]
+        bad = [r for r in rs if r[0] != 'no']
+        return bad[0] if bad else ('no', None)
+    if isinstance(e, ast.Call):
+        if isinstance(e.func, ast.Attribute) and is_stream(e.func.value):
+            return ('app', e)
+        if isinstance(e.func, ast.Name) and e.func.id in ('bytes', 'str', 'bytearray', 'memoryview'):
+            return ('no', None)
+        if isinstance(e.func, ast.Attribute) and e.func.attr in ('encode', 'join', 'format'):
+            return ('no', None)
+        return ('call', e)
+    if isinstance(e, ast.Name):
+        is_x = lambda x: is_name(x, e.id)  # noqa: E731
+        if refuted(_stable_facts(a.ix, nid, e, e.id), assume_none(is_x, True)):
+            return ('no', None)
+        if depth > 3:
+            return ('?', 'definition chain of %s too deep' % e.id)
+        worst = ('no', None)
+        ds = a.ix.defs_reaching(nid, e.id)
+        if not ds:
+            return ('?', '%s has no reaching definition' % e.id)
+        for d in ds:
+            dv = def_value(a.cfg, d, e.id)
+            if dv[0] == 'expr' and dv[1] is not None:
+                r = _noneness(a, dv[1], d, is_stream, depth + 1)
+            elif dv[0] == 'iter':
+                r = ('app', dv[1]) if is_stream(strip_await(dv[1])) else ('maybe', dv[1])
+            else:
+                r = ('maybe', a.cfg.node(d).ast)
+            if r[0] in ('app', 'none'):
+                return r
+            if r[0] != 'no' and worst[0] == 'no':
+                worst = r
+        return worst
+    if isinstance(e, ast.Attribute):
+        return ('maybe', e)
+    return ('?', 'expression %s' % short(e))
+
+
+def r9_body_bytes(run):
+    """ASGI: the 'body' of every http.response.body event is a byte string.  A chunk handed over by the application's
+    stream object (`await stream.read(n)`, an item of `async for ... in stream`) may be None -- the framework documents
+    both ("Handle the case in which data is None"; `if data is None: break`) -- so on the way into the event the None
+    cell must be covered: by a normaliser whose last alternative is not None (`data or b''`), or by a dominating test
+    that excludes None for the very value that is sent.
+    Witness: resp.stream = object whose async read() returns None once before b'': the server receives 'body': None."""
+    a = AsgiCall(run)
+    f = a.f
+    st_al = aliases(f, lambda e: attr_of(e, a.resp, ('stream',)))
+    is_stream = lambda e: (isinstance(e, ast.Name) and e.id in st_al) or attr_of(e, a.resp, ('stream',))  # noqa: E731
+    what = "ASGI: the 'body' of a body event is never None (a None chunk from the application's stream is normalised or excluded first)"
+    unknown = []
+    n = 0
+    for ev in sorted(a.events.values(), key=lambda e: e.call.lineno):
+        if ev.kind != 'BODY' or ev.body is None:
+            continue
+        for nid in a.ix.nodes_of(ev.call):
+            kind, src = _noneness(a, ev.body, nid, is_stream)
+            cons = "'body': %s" % short(ev.body, 80)
+            if kind == 'no':
+                n += 1
+                run.ok(what, f.loc(ev.call), cons)
+            elif kind in ('app', 'none'):
+                n += 1
+                run.fail(what + (': `%s` comes from `%s` and nothing between there and the event excludes None' % (short(ev.body), short(src, 60))
+                                 if kind == 'app' else ': `%s` evaluates to None' % short(ev.body)),
+                         f, cons, where=f.loc(ev.call),
+                         runtime_witness="resp.stream whose async read() (or iterator) yields None before the end: the server receives "
+                                         "{'type': 'http.response.body', 'body': None, 'more_body': True} and aborts the response")
+            elif kind == 'call':
+                continue            # produced by a call (e.g. SSEvent.serialize, framed by R7): not this clause
+            else:
+                unknown.append('%s: cannot tell whether %s can be None (%s)' % (f.qual, cons, short(src, 50) if not isinstance(src, str) else src))
+            break
+    if unknown:
+        raise UnknownIdiom('; '.join(unknown[:2]))
+    if n == 0:
+        raise AnchorError('%s: no body event carries a body expression' % f.qual)
+
+
+# ---------------------------------------------------------------------------
+# R10: server-sent events -- the emitter is validated before the response starts; the disconnect watcher is
+# cancelled before it is awaited
+# ---------------------------------------------------------------------------
+
+def r10_sse_stream(run):
+    """ASGI SSE branch.
+    (a) The disconnect watcher -- a task whose coroutine loops on `await receive()` and therefore completes only when the
+    client goes away -- is awaited only after it has been cancelled (or is known to be done): every path from its creation
+    to `await <task>` passes `<task>.cancel()` or the true edge of a `<task>.done()` test.  Otherwise a finite event stream
+    never gets its final body event while the client stays connected.
+    (b) The object iterated by `async for ... in <emitter>` is validated BEFORE the response start is sent: some test that
+    inspects the emitter dominates the start event with one outcome and ends in a `raise` on every path of the other.  After
+    the start event the server can no longer answer with an error response: the client gets a committed, truncated stream.
+    Witness (a): resp.sse = finite async generator, client keeps the connection open: no event with more_body false.
+    Witness (b): resp.sse = an async generator FUNCTION: http.response.start is sent, then `async for` raises TypeError."""
+    a = AsgiCall(run)
+    f, cfg, ix = a.f, a.cfg, a.ix
+    receive = param_at(f, 2, 'receive')
+    sse_al = aliases(f, lambda e: attr_of(e, a.resp, ('_sse', 'sse')))
+    is_sse = lambda e: (isinstance(e, ast.Name) and e.id in sse_al) or attr_of(e, a.resp, ('_sse', 'sse'))  # noqa: E731
+    loops = [n for n in walk_self(f.node) if isinstance(n, (ast.AsyncFor, ast.For)) and is_sse(n.iter)]
+    if not loops:
+        raise AnchorError('%s: no loop over %s.sse' % (f.qual, a.resp))
+    send_nodes = sorted({nid for ev in a.events.values() for nid in ix.nodes_of(ev.call)})
+    # ---- (b)
+    what_b = 'ASGI SSE: the emitter is validated (rejected with an exception) before the response start is sent'
+    for lp in loops:
+        heads = [i for i in cfg.nodes_for(lp) if cfg.node(i).kind == 'iter']
+        if not heads:
+            continue
+        starts = sorted({nid for ev in a.events.values() if ev.kind == 'START' for nid in ix.nodes_of(ev.call)
+                         if flow.find_path(cfg, [nid], heads, edge_filter=flow.no_exc) is not None})
+        if not starts:
+            raise UnknownIdiom('%s: no response-start event precedes the loop over the SSE emitter' % f.qual)
+        for s in starts:
+            ok = False
+            inspected = None
+            for t in cfg.live_nodes():
+                if t.kind != 'test' or not any(isinstance(c, ast.Call) and any(is_sse(x) for x in c.args) for c in walk_self(t.ast)):
+                    continue
+                inspected = t
+                for (y, l) in cfg.succ[t.id]:
+                    if l not in ('T', 'F') or not ix.dominated_by_edge(s, (t.id, y, l)):
+                        continue
+                    other = [y2 for (y2, l2) in cfg.succ[t.id] if l2 in ('T', 'F') and l2 != l]
+                    region = flow.reachable(cfg, other, edge_filter=flow.no_exc)
+                    raises = any(cfg.node(i).kind == 'stmt' and isinstance(cfg.node(i).ast, ast.Raise) for i in region)
+                    if other and raises and flow.find_path(cfg, other, [cfg.exit] + send_nodes, edge_filter=flow.no_exc) is None:
+                        ok = True
+            why = ('`%s` inspects the emitter but neither outcome is rejected before the start event' % short(inspected.ast, 60)) if inspected is not None \
+                else 'no test inspects the emitter before the start event'
+            run.check(ok, what_b + ('' if ok else ' [%s]' % why), f,
+                      inspected.ast if (inspected is not None and not ok) else 'start event before `async for ... in %s`' % short(lp.iter),
+                      where='%s:%s' % (f.file, cfg.node(s).lineno),
+                      runtime_witness='resp.sse = an async generator function (not the generator object): the server receives '
+                                      'http.response.start (200 text/event-stream) and then the application fails with TypeError -- a committed, '
+                                      'truncated response instead of an error response')
+    # ---- (a)
+    what_a = 'ASGI SSE: the disconnect watcher task is awaited only after it was cancelled (or is known to be done)'
+    tasks = {}
+    for n in walk_self(f.node):
+        if isinstance(n, ast.Assign) and len(n.targets) == 1 and isinstance(n.targets[0], ast.Name) and isinstance(n.value, ast.Call) \
+                and isinstance(n.value.func, ast.Attribute) and n.value.func.attr in ('create_task', 'ensure_future') and n.value.args:
+            co = n.value.args[0]
+            g = f.nested.get(co.func.id) if isinstance(co, ast.Call) and isinstance(co.func, ast.Name) else None
+            if g is not None and any(isinstance(c, ast.Call) and is_name(c.func, receive) for c in walk_self(g.node)):
+                tasks.setdefault(n.targets[0].id, []).append(n)
+    if not tasks:
+        raise AnchorError('%s: no task watching receive() for a disconnect is created' % f.qual)
+    for name, binds in sorted(tasks.items()):
+        is_t = lambda e, name=name: is_name(e, name)  # noqa: E731
+        awaits = [x for x in walk_self(f.node) if isinstance(x, ast.Await) and is_t(x.value)]
+        cancel = {nid for c in walk_self(f.node) if isinstance(c, ast.Call) and isinstance(c.func, ast.Attribute) and c.func.attr == 'cancel'
+                  and is_t(c.func.value) for nid in ix.nodes_of(c)}
+        is_done = lambda e: isinstance(e, ast.Call) and isinstance(e.func, ast.Attribute) and e.func.attr == 'done' and is_t(e.func.value)  # noqa: E731
+        done_edges = set()
+        for t in cfg.live_nodes():
+            if t.kind == 'test' and mentions(t.ast, is_done):
+                for (y, l) in cfg.succ[t.id]:
+                    if l in ('T', 'F') and eval3(t.ast, lambda e: False if is_done(e) else None) == (l != 'T'):
+                        done_edges.add((t.id, y, l))        # this outcome is impossible unless done() returned True
+        if not awaits:
+            run.ok(what_a + ' (the task is never awaited)', f.loc(binds[0]), name)
+            continue
+        for aw in awaits:
+            for nid in ix.nodes_of(aw):
+                srcs = sorted({y for b in binds for d in ix.nodes_of(b.value) for (y, l) in cfg.succ[d] if l != 'exc'})
+                path = flow.find_path(cfg, srcs, [nid], avoid_nodes=cancel - {nid}, avoid_edges=done_edges, edge_filter=flow.no_exc)
+                run.check(path is None, what_a, f, 'await %s' % name, where='%s:%s' % (f.file, cfg.node(nid).lineno),
+                          witness=flow.describe_path(cfg, path) if path else None,
+                          runtime_witness='resp.sse = a finite async generator and a client that keeps the connection open: `await %s` '
+                                          'blocks until the client disconnects, the final body event (more_body false) is never sent' % name)
+
+
+# ---------------------------------------------------------------------------
+# R11: rendering the media -- the optional fast-path serializer is called only where it exists; the render cache is
+# filled on every path that found it empty
+# ---------------------------------------------------------------------------
+
+RESOLVER = 'falcon.media.handlers.Handlers._create_resolver'
+
+
+def _optional_resolve_positions(p) -> Set[int]:
+    """Positions of the tuple returned by Handlers._resolve that may be None: `getattr(handler, <name>, None)`."""
+    f = p.func(RESOLVER)
+    inner = [g for g in f.nested.values() if any(isinstance(r, ast.Return) and isinstance(r.value, ast.Tuple) for r in walk_self(g.node))]
+    if len(inner) != 1:
+        raise AnchorError('%s: the resolver closure was not found' % RESOLVER)
+    out: Set[int] = set()
+    widths = set()
+    for r in walk_self(inner[0].node):
+        if isinstance(r, ast.Return) and isinstance(r.value, ast.Tuple):
+            widths.add(len(r.value.elts))
+            if all(isinstance(e, ast.Constant) and e.value is None for e in r.value.elts):
+                continue            # the raise_not_found=False answer: every position None (callers that pass it test the handler)
+            for i, e in enumerate(r.value.elts):
+                if isinstance(e, ast.Call) and is_name(e.func, 'getattr') and len(e.args) == 3 and isinstance(e.args[2], ast.Constant) and e.args[2].value is None:
+                    out.add(i)
+    if len(widths) != 1 or not out:
+        raise UnknownIdiom('%s: cannot read which positions of the resolver result are optional' % RESOLVER)
+    return out
+
+
+RENDER_SIBLINGS = ('falcon.response.Response.render_body', 'falcon.asgi.response.Response.render_body', ASGI_CALL)
+
+
+def r11_media_render(run):
+    """The three renderers of resp.media (Response.render_body, asgi.Response.render_body and its inlined copy in
+    asgi.App.__call__).
+    (a) `serialize_sync` -- position 1 of what Handlers._resolve returns -- is `getattr(handler, '_serialize_sync', None)`: an
+    OPTIONAL fast path.  It is called only where a dominating test proves it truthy; everywhere else the handler's own
+    serialize method is the way.  Witness: a media handler without `_serialize_sync` (any subclass of a stock handler, any
+    user handler) and resp.media set: `None(media)` -> TypeError -> 500 instead of the serialized media.
+    (b) Once `_media_rendered is _UNSET` was found true, every normal path to the next read of `_media_rendered` stores the
+    rendition: the sentinel itself must never be returned as the body.  Witness: same handler: render_body() returns _UNSET,
+    `len(data)` raises TypeError out of the ASGI callable before any response-start event."""
+    p = run.project
+    opt = _optional_resolve_positions(p)
+    n_calls = 0
+    for q in RENDER_SIBLINGS:
+        f = p.func(q)
+        cfg = cfg_of(f, p)
+        run.use_cfg(cfg)
+        ix = Index(cfg)
+        tag = q.replace('falcon.', '')
+        # ---- (a)
+        for st in walk_self(f.node):
+            if not (isinstance(st, ast.Assign) and len(st.targets) == 1 and isinstance(st.targets[0], ast.Tuple)):
+                continue
+            v = strip_await(st.value)
+            if not (isinstance(v, ast.Call) and isinstance(v.func, ast.Attribute) and v.func.attr == '_resolve'):
+                continue
+            for i, t in enumerate(st.targets[0].elts):
+                if i not in opt or not isinstance(t, ast.Name):
+                    continue
+                name = t.id
+                is_x = lambda e, name=name: is_name(e, name)  # noqa: E731
+                if not any(isinstance(c, ast.Call) and is_x(c.func) for c in walk_self(f.node)):
+                    continue            # (a placeholder such as `_`: never called)
+                if sum(1 for x in ast.walk(f.node) if is_name(x, name) and isinstance(x.ctx, ast.Store)) != 1:
+                    raise UnknownIdiom('%s: the optional serializer local %s is bound more than once' % (f.qual, name))
+                for c in walk_self(f.node):
+                    if not (isinstance(c, ast.Call) and is_x(c.func)):
+                        continue
+                    for nid in ix.nodes_of(c):
+                        n_calls += 1
+                        facts = ix.facts(nid, c)
+                        proven = refuted(facts, assume_none(is_x, True))
+                        absent = refuted(facts, lambda e: True if is_x(e) else None)       # the facts say: falsy
+                        run.check(proven, '%s: the optional fast-path `%s` (None when the handler has none) is called only where a test proves it present%s'
+                                  % (tag, name, '' if proven else (' [it is called where the tests say it is ABSENT]' if absent else ' [no test guards the call]')),
+                                  f, c, where=f.loc(c),
+                                  runtime_witness='resp.media with a media handler that has no _serialize_sync (a subclassed or user-defined handler): '
+                                                  'None(media) raises TypeError, the response is a 500 instead of the serialized media')
+        # ---- (b)
+        is_cache = lambda e: isinstance(e, ast.Attribute) and e.attr == '_media_rendered'  # noqa: E731
+
+        def is_unset_cmp(e):
+            return (isinstance(e, ast.Compare) and len(e.ops) == 1 and isinstance(e.ops[0], ast.Is) and is_cache(e.left)
+                    and dotted(e.comparators[0]) is not None and dotted(e.comparators[0]).split('.')[-1] == '_UNSET')
+
+        stores = {n.id for n in cfg.live_nodes() if n.kind == 'stmt' and any(is_cache(x) and isinstance(x.ctx, ast.Store) for x in n.walk())}
+        tests = [n for n in cfg.live_nodes() if n.kind == 'test' and mentions(n.ast, is_unset_cmp)]
+        if not tests:
+            raise AnchorError('%s: no `_media_rendered is _UNSET` test' % f.qual)
+        for t in tests:
+            loads = [n.id for n in cfg.live_nodes() if n.id != t.id and n.kind in ('stmt', 'test')
+                     and any(is_cache(x) and isinstance(x.ctx, ast.Load) for x in n.walk())]
+            for (y, l) in cfg.succ[t.id]:
+                if l not in ('T', 'F') or implied(t.ast, l == 'T', is_unset_cmp) is not True:
+                    continue
+                path = flow.find_path(cfg, [y], loads, avoid_nodes=stores, edge_filter=flow.no_exc)
+                run.check(path is None, '%s: after `_media_rendered is _UNSET` every normal path stores the rendition before the cache is read' % tag,
+                          f, t.ast, where='%s:%s' % (f.file, t.lineno), witness=flow.describe_path(cfg, [t.id] + path) if path else None,
+                          runtime_witness='resp.media with a handler that takes the path without a store: render_body() returns the _UNSET sentinel; '
+                                          'len(data) raises TypeError before any response-start event')
+    if n_calls == 0:
+        raise AnchorError('no call of an optional fast-path serializer was found in the render siblings')
+
+
+# ---------------------------------------------------------------------------
+# R12: the raw header setters hand native strings to the header store
+# ---------------------------------------------------------------------------
+
+# the public setters that take a caller-supplied header VALUE (one line of reason each)
+RAW_SETTERS = {
+    'set_header': 'documented: the value is converted with str() (uwsgi raises TypeError for a non-str header)',
+    'append_header': 'same contract as set_header; the stored value is concatenated with a str',
+    'set_headers': 'same contract, one (name, value) pair at a time',
+}
+_STR_METHODS = {'lower', 'upper', 'strip', 'title', 'format', 'join', 'encode', 'decode', 'replace'}
+
+
+def r12_native_header_values(run):
+    """WSGI: "native-string header pairs"; ASGI: the value is `.encode()`d when the start event is built.  Whatever the
+    raw setters of falcon.Response store into the header dict / the extra-header list and that derives from what the CALLER
+    passed (the `value` parameter, an item of `headers`) has gone through `str(...)` on the way (def-use from the store back to
+    the parameter).  Witness: resp.set_header('X-Count', 42): start_response receives ('x-count', 42) (PEP 3333 violation;
+    uwsgi raises TypeError) and on ASGI `42 .encode` raises AttributeError before the response-start event."""
+    p = run.project
+    cls = p.cls('falcon.response.Response')
+    n = 0
+    for mname, reason in sorted(RAW_SETTERS.items()):
+        f = cls.methods.get(mname)
+        if f is None:
+            raise AnchorError('falcon.response.Response.%s not found' % mname)
+        cfg = cfg_of(f, p)
+        run.use_cfg(cfg)
+        ix = Index(cfg)
+        hd_al = aliases(f, lambda e: is_self_attr(e, '_headers'))
+        is_store = lambda e: is_self_attr(e, '_headers') or is_self_attr(e, '_extra_headers') or (isinstance(e, ast.Name) and e.id in hd_al)  # noqa: E731
+
+        def raw(e, nid, depth=0):
+            """The first caller-supplied value that reaches `e` without passing str(): a description, or None."""
+            e = strip_await(e)
+            if isinstance(e, ast.Constant):
+                return None
+            if isinstance(e, ast.Call):
+                if is_name(e.func, 'str'):
+                    return None
+                if isinstance(e.func, ast.Attribute) and e.func.attr in _STR_METHODS:
+                    return None         # a str method: returns a str or raises for anything else
+                raise UnknownIdiom('%s: cannot tell what `%s` returns' % (f.qual, short(e)))
+            if isinstance(e, ast.JoinedStr):
+                return None
+            if isinstance(e, ast.BinOp) and isinstance(e.op, (ast.Add, ast.Mod)):
+                return raw(e.left, nid, depth) or raw(e.right, nid, depth)
+            if isinstance(e, (ast.Tuple, ast.List)):
+                for x in e.elts:
+                    r = raw(x, nid, depth)
+                    if r:
+                        return r
+                return None
+            if isinstance(e, ast.Subscript) and is_store(e.value):
+                return None             # a value that is in the store already
+            if isinstance(e, ast.Name):
+                if depth > 4:
+                    raise UnknownIdiom('%s: definition chain of %s too deep' % (f.qual, e.id))
+                for d in ix.defs_reaching(nid, e.id):
+                    dv = def_value(cfg, d, e.id)
+                    if dv[0] == 'expr' and dv[1] is not None:
+                        r = raw(dv[1], d, depth + 1)
+                        if r:
+                            return r
+                    elif dv[0] == 'param':
+                        return 'the parameter `%s`' % e.id
+                    elif dv[0] in ('iter', 'unpack'):
+                        return 'an item of `%s`' % short(dv[1], 40)
+                    else:
+                        raise UnknownIdiom('%s: binding of %s not understood' % (f.qual, e.id))
+                return None
+            raise UnknownIdiom('%s: header value expression `%s` not understood' % (f.qual, short(e)))
+
+        sinks = []          # (node id, value expression, construct)
+        for nd in cfg.live_nodes():
+            if nd.kind != 'stmt':
+                continue
+            s_ = nd.ast
+            if isinstance(s_, ast.Assign):
+                for t in s_.targets:
+                    if isinstance(t, ast.Subscript) and is_store(t.value):
+                        sinks.append((nd.id, s_.value, s_))
+                    elif is_self_attr(t, '_extra_headers') and isinstance(s_.value, (ast.List, ast.Tuple)):
+                        for pair in s_.value.elts:
+                            sinks.append((nd.id, pair.elts[1] if isinstance(pair, ast.Tuple) and len(pair.elts) == 2 else pair, s_))
+            for c in nd.walk():
+                if isinstance(c, ast.Call) and isinstance(c.func, ast.Attribute) and c.func.attr in ('append', 'insert', 'extend', 'setdefault', 'update') \
+                        and is_store(c.func.value):
+                    for arg in c.args:
+                        sinks.append((nd.id, arg.elts[1] if isinstance(arg, ast.Tuple) and len(arg.elts) == 2 else arg, c))
+        if not sinks:
+            raise AnchorError('%s: no store into the header dict / extra-header list' % f.qual)
+        for nid, val, cons in sinks:
+            n += 1
+            r = raw(val, nid)
+            run.check(r is None, 'Response.%s: the value stored in the header store is a native str: what the caller passed goes through str() first%s'
+                      % (mname, '' if r is None else ' [%s reaches the store as it was passed]' % r), f, cons, where=f.loc(cons),
+                      runtime_witness="resp.%s with a non-str value (42, a UUID): start_response receives a non-str header value "
+                                      "(uwsgi: TypeError); on ASGI value.encode() raises AttributeError before the response-start event" % mname)
+    if n == 0:
+        raise AnchorError('no raw header setter stores anything')
+
+
 def check(run):
     run.assume('send/start_response are the server callables passed to __call__; every send site passes a dict display, a module '
                'constant, or a local bound to a dict display in __call__ (folded with its constant-key field stores)')
@@ -1980,3 +2392,7 @@ def check(run):
     from . import c12 as _c12
 
     run.rule('R8', _c12.r4_render_cache, 'the rendered-media cache is reset by every writer of the media (shared with C12 R4)', floor=4)
+    run.rule('R9', r9_body_bytes, "ASGI: the 'body' of a body event is never None (None chunks of the application's stream are normalised or excluded)", floor=3)
+    run.rule('R10', r10_sse_stream, 'ASGI SSE: the emitter is validated before the response start; the disconnect watcher is cancelled before it is awaited', floor=2)
+    run.rule('R11', r11_media_render, 'media rendering: the optional fast-path serializer is called only where present; the render cache is filled before it is read', floor=5)
+    run.rule('R12', r12_native_header_values, 'raw header setters: caller-supplied values reach the header store through str()', floor=4)
